@@ -223,12 +223,16 @@ def execModel (w : World) (toks : List String) (hint : String) : World × String
   match toks with
   | ["M", t] => (w, s!"M {t}")
   | ["C", id] => ({}, s!"C {id}")
+  | ["K", _] => (w, "K")
   | "P" :: md :: _ :: rest =>
     let f0 : Nat := match rest with
       | f :: _ => f.toNat!
       | [] => (match hint.splitOn " f" with | [_, f] => f.trimAscii.toString.toNat! | _ => 0)
     (setP w k (garbageParser md.toNat! (flagsOfWord f0)), s!"P {md} f{f0}")
   | ["I", t, hx] =>
+    withP fun p => let r := init p (parseHex hx) (if t == "a" then 2 else 1); (setP w k r.1, pobs r.1 (toString r.2.toNat) 0)
+  -- "I <t> <hex> s": init again over the same memory (same pointer and size, contents replaced): the same call for the model
+  | ["I", t, hx, _] =>
     withP fun p => let r := init p (parseHex hx) (if t == "a" then 2 else 1); (setP w k r.1, pobs r.1 (toString r.2.toNat) 0)
   | ["B", hx] => withP fun p =>
       let nb := parseHex hx
@@ -356,7 +360,7 @@ def parseObs (line : String) : Obs :=
   | r :: e :: d :: u :: t :: n :: v :: c :: _ =>
     if e.startsWith "e" && d.startsWith "d" && u.startsWith "u" && t.startsWith "t" && n.startsWith "n" && c.startsWith "c" then
       { ret := r, err := (dropPrefix e 1).toNat!, depth := (dropPrefix d 1).toNat!, used := (dropPrefix u 1).toNat!,
-        ty := (dropPrefix t 1).toNat!, name := dropPrefix n 1, val := v, ncb := (dropPrefix c 1).toNat!, ok := true }
+        ty := (dropPrefix t 1).toNat!, name := dropPrefix n 1, val := v, ncb := ((dropPrefix c 1).toNat?).getD 0, ok := true }
     else {}
   | _ => {}
 
@@ -1039,6 +1043,12 @@ def runCheck (profile : String) (ops impl : Array String) (maxReport : Nat) : IO
     let (w', s) := execModel w toks implLine
     w := w'
     nCompared := nCompared + 1
+    -- a case run with no callback installed reports "c-" for the token count: the model's count is masked for the comparison
+    let s := if (implLine.splitOn " ").contains "c-" then
+        (match s.splitOn " | " with
+         | a :: rest => " | ".intercalate ((" ".intercalate ((a.splitOn " ").map fun t => if t.startsWith "c" && t.length > 1 && (t.drop 1).toString.all Char.isDigit then "c-" else t)) :: rest)
+         | [] => s)
+      else s
     if !caseBad && s != implLine then
       caseBad := true
       nMis := nMis + 1
